@@ -6,6 +6,8 @@ use std::sync::atomic::{AtomicU64, Ordering};
 use std::sync::Mutex;
 
 thread_local! { static LAST_PANIC: RefCell<Option<String>> = RefCell::new(None); }
+thread_local! { pub static THREAD_CASE: RefCell<(usize, String)> = RefCell::new((usize::MAX, String::new())); }
+pub static ABORT_FILE: Mutex<String> = Mutex::new(String::new());
 pub static HEARTBEAT: AtomicU64 = AtomicU64::new(0);
 pub static CURRENT: Mutex<String> = Mutex::new(String::new());
 
@@ -15,6 +17,18 @@ pub fn install_panic_hook() {
             else if let Some(s) = info.payload().downcast_ref::<String>() { s.clone() }
             else { "<non-string panic>".to_string() };
         let loc = info.location().map(|l| format!("{}:{}", l.file(), l.line())).unwrap_or_default();
+        if msg.contains("unsafe precondition") || msg.contains("cannot unwind") || msg.contains("during cleanup") || msg.contains("panic in a destructor") {
+            // a non-unwinding panic (violated unsafe precondition, panic in a destructor during unwinding, ...)
+            // aborts the process: record which case did it so that the orchestrator can report it and go on.
+            let (idx, case) = THREAD_CASE.with(|c| c.borrow().clone());
+            let path = ABORT_FILE.lock().map(|p| p.clone()).unwrap_or_default();
+            if !path.is_empty() {
+                let v = serde_json::json!({"index": idx, "case": serde_json::from_str::<Value>(&case).unwrap_or(Value::String(case)), "message": format!("{} @ {}", msg, loc)});
+                let _ = std::fs::write(&path, serde_json::to_string(&v).unwrap());
+            }
+            eprintln!("ABORT in case {}: {} @ {}", idx, msg, loc);
+            return;
+        }
         LAST_PANIC.with(|p| *p.borrow_mut() = Some(format!("{} @ {}", msg, loc)));
     }));
 }
@@ -35,6 +49,7 @@ pub fn is_ub_panic(msg: &str) -> bool {
         || msg.contains("out of range for slice") && msg.contains("unchecked")
 }
 
+pub fn set_thread_case(idx: usize, case: &str) { THREAD_CASE.with(|c| { let mut c = c.borrow_mut(); c.0 = idx; c.1.clear(); c.1.push_str(case); }); }
 pub fn beat(case: &str) {
     HEARTBEAT.fetch_add(1, Ordering::Relaxed);
     if let Ok(mut c) = CURRENT.lock() { c.clear(); c.push_str(case); }
